@@ -763,10 +763,13 @@ void Circuit::removeIrrelevantMuxes(Subnet &subnet)
 									Conjunction subnetOutputMuxNodeCondition;
 									subnetOutputMuxNodeCondition.parseInput({.node = subnetOutputMuxNode, .port = 0});
 
-									if (input.port == muxInputPort && condition.isEqualTo(subnetOutputMuxNodeCondition))
-										continue;
-									if (input.port != muxInputPort && condition.isNegationOf(subnetOutputMuxNodeCondition))
-										continue;
+									// Only a path that enters the mux through one of its two DATA inputs is filtered by it. A path entering through the selector (port 0) is not.
+									if (input.port != 0) {
+										if (input.port == muxInputPort && condition.isEqualTo(subnetOutputMuxNodeCondition))
+											continue;
+										if (input.port != muxInputPort && condition.isNegationOf(subnetOutputMuxNodeCondition))
+											continue;
+									}
 								}
 							}
 
